@@ -186,6 +186,9 @@ func childServer(args []string) {
 	if os.Getenv("VERIF_LM_CACHE") != "" {
 		cache = "[cache]\n    [cache.labelmap]\n    size = 64\n"
 	}
+	if v := os.Getenv("VERIF_IID_START"); v != "" {
+		rw += "instance_id_gen = \"sequential\"\ninstance_id_start = " + v + "\n"
+	}
 	toml := cache + fmt.Sprintf(`[server]
 httpAddress = ":0"
 rpcAddress = ":0"
@@ -295,6 +298,21 @@ logfile = %q
 				break
 			}
 			fmt.Fprintf(w, "%d\n", d.NewMutationID())
+		case "COPY": // COPY <uuid> <source> <target> <transmit mode>
+			cfg := dvid.NewConfig()
+			cfg.Set("transmit", f[4])
+			if derr := datastore.CopyInstance(dvid.UUID(f[1]), dvid.InstanceName(f[2]), dvid.InstanceName(f[3]), cfg); derr != nil {
+				fmt.Fprintf(w, "err %s\n", strings.ReplaceAll(derr.Error(), "\n", " "))
+			} else {
+				fmt.Fprintln(w, "ok")
+			}
+		case "IID":
+			d, derr := datastore.GetDataByUUIDName(dvid.UUID(f[1]), dvid.InstanceName(f[2]))
+			if derr != nil {
+				fmt.Fprintf(w, "err %s\n", strings.ReplaceAll(derr.Error(), "\n", " "))
+				break
+			}
+			fmt.Fprintf(w, "%d\n", d.InstanceID())
 		case "SETTLE":
 			if derr := datastore.BlockOnUpdating(dvid.UUID(f[1]), dvid.InstanceName(f[2])); derr != nil {
 				fmt.Fprintf(w, "err %s\n", strings.ReplaceAll(derr.Error(), "\n", " "))
